@@ -177,6 +177,11 @@ def c_cond(ti, c):
     return {'lt': '%s < %d' % (v, c.get('k', 0)), 'ge': '%s >= %d' % (v, c.get('k', 0)), 'even': '%s %% 2 == 0' % v,
             'odd': '%s %% 2 == 1' % v}[c['op']]
 
+def unbraceable(stmts):
+    """exactly one statement that the emitter prints as a single C statement (no nested if: dangling else)"""
+    return len(stmts) == 1 and stmts[0]['k'] in ('emit', 'set', 'inc', 'yield', 'wait', 'exit', 'fail', 'exit_on', 'fail_on', 'spawn', 'spawn_check', 'call')
+
+
 def emit_block(ti, stmts, ind, out, sites):
     p = '\t' * ind
     for st in stmts:
@@ -188,15 +193,22 @@ def emit_block(ti, stmts, ind, out, sites):
         elif k == 'inc':
             out.append('%sv%d[%d]++;' % (p, ti, st['var']))
         elif k == 'if':
-            out.append('%sif (%s) {' % (p, c_cond(ti, st['cond'])))
+            # bodies consisting of one simple statement may be written without braces (as people do):
+            # every PT_* macro has to behave as a single statement there
+            tb = st.get('nobrace') and unbraceable(st['then'])
+            eb = st.get('nobrace') and unbraceable(st['else'])
+            out.append('%sif (%s)%s' % (p, c_cond(ti, st['cond']), '' if tb else ' {'))
             emit_block(ti, st['then'], ind + 1, out, sites)
-            out.append('%s} else {' % p)
+            out.append('%s%selse%s' % (p, '' if tb else '} ', '' if eb else ' {'))
             emit_block(ti, st['else'], ind + 1, out, sites)
-            out.append('%s}' % p)
+            if not eb:
+                out.append('%s}' % p)
         elif k == 'for':
-            out.append('%sfor (v%d[%d] = 0; v%d[%d] < %d; v%d[%d]++) {' % (p, ti, st['var'], ti, st['var'], st['n'], ti, st['var']))
+            nb = st.get('nobrace') and unbraceable(st['body'])
+            out.append('%sfor (v%d[%d] = 0; v%d[%d] < %d; v%d[%d]++)%s' % (p, ti, st['var'], ti, st['var'], st['n'], ti, st['var'], '' if nb else ' {'))
             emit_block(ti, st['body'], ind + 1, out, sites)
-            out.append('%s}' % p)
+            if not nb:
+                out.append('%s}' % p)
         elif k == 'while':
             out.append('%sv%d[%d] = 0;' % (p, ti, st['var']))
             out.append('%swhile (v%d[%d] < %d) {' % (p, ti, st['var'], st['n']))
@@ -340,13 +352,14 @@ def strategies():
         opts = leaf + leaf + rare
         if depth < 3:
             sub = lambda lv: st.deferred(lambda: st.lists(stmts(ti, nthreads, depth + 1, lv), min_size=0, max_size=3))
-            opts.append(st.builds(lambda c, a, b: dict(k='if', cond=c, then=a, **{'else': b}), cond(), sub(loopvars), sub(loopvars)))
-            opts.append(st.builds(lambda c, a, b: dict(k='if', cond=c, then=a, **{'else': b}), cond(), sub(loopvars), sub(loopvars)))
+            sub1 = lambda lv: st.deferred(lambda: st.lists(stmts(ti, nthreads, depth + 1, lv), min_size=1, max_size=1))
+            opts.append(st.builds(lambda c, a, b, nb: dict(k='if', cond=c, then=a, nobrace=nb, **{'else': b}), cond(), sub(loopvars), sub(loopvars), st.booleans()))
+            opts.append(st.builds(lambda c, a, b, nb: dict(k='if', cond=c, then=a, nobrace=nb, **{'else': b}), cond(), sub1(loopvars), sub1(loopvars), st.booleans()))
             if free:
                 lv = free[0]
                 opts.append(st.builds(lambda n, body: dict(k='for', var=lv, n=n, body=body), st.integers(0, 3), sub(loopvars + (lv,))))
                 opts.append(st.builds(lambda n, body: dict(k='while', var=lv, n=n, body=body), st.integers(0, 3), sub(loopvars + (lv,))))
-                opts.append(st.builds(lambda n, body: dict(k='for', var=lv, n=n, body=body), st.integers(1, 3), sub(loopvars + (lv,))))
+                opts.append(st.builds(lambda n, body, nb: dict(k='for', var=lv, n=n, body=body, nobrace=nb), st.integers(1, 3), sub1(loopvars + (lv,)), st.booleans()))
         return st.one_of(*opts)
 
     def thread(ti, nthreads):
@@ -382,6 +395,7 @@ def cmd_run(a):
         for k, v in (('blocking point inside a loop inside a conditional', stats['block_in_loop_in_cond']),
                      ('a child spawned more than once', any(c > 1 for c in stats['spawn_counts'].values())),
                      ('a failing child', stats['child_failed']), ('child yield/wait relayed upward', stats['relayed'] > 0),
+                     ('unbraced single-statement body', 'for (' in src and any(l.rstrip().endswith(')') and (l.strip().startswith('if (') or l.strip().startswith('for (')) for l in src.splitlines()) or '\telse\n' in src),
                      ('two rounds (PT_INIT after exit)', prog['rounds'] == 2)):
             if v:
                 st['classes'][k] = st['classes'].get(k, 0) + 1
